@@ -148,6 +148,20 @@ def main(argv=None) -> int:
             from . import selftest
 
             extra["selftest"] = selftest.run_for(prop, args.repo)
+            # the normal form is behaviour-preserving: differential run on synthetic programs (no repository code)
+            import contextlib
+            import io
+
+            from .tests import test_normalise
+
+            buf = io.StringIO()
+            with contextlib.redirect_stdout(buf):
+                rc = test_normalise.main()
+            extra["selftest"]["normal_form_differential"] = {"cases": len(test_normalise.CASES) + 1, "problems": rc,
+                                                             "log": buf.getvalue().strip().splitlines()[-1:]}
+            if rc:
+                extra["selftest"]["failed"] = extra["selftest"].get("failed", 0) + 1
+                extra["selftest"].setdefault("failures", []).append("normal form differential test: " + buf.getvalue()[:400])
         wall = time.time() - t0
         if not args.no_evidence:
             write_evidence(prop, args.tier, res, mod, ctx, wall, len(unlisted), extra)
